@@ -342,7 +342,7 @@ func main() {
 	if len(violations) > 0 {
 		for _, v := range violations {
 			fmt.Printf("VIOLATION property=%s replay=%s\n", id, v.Replay)
-			fmt.Printf("  signature: %s\n  entry=%s input=%s\n  %s\n", strings.Join(v.Case.Sigs, " ; "), v.Case.Entry, strconv.Quote(v.Case.Input), v.Case.Message)
+			fmt.Printf("  signature: %s\n  entry=%s input=%s\n  %s\n", strings.Join(v.Case.Sigs, " ; "), v.Case.Entry, v.Case.InputQ, v.Case.Message)
 		}
 		os.Exit(1)
 	}
